@@ -11,7 +11,10 @@ top of the remote" = the answer of `FS.Step` on the direct tree: the remote's in
 successful operations were applied directly (`Sim`, `directRun`; `Goat.C06.direct_is_spec`).
 
 WHAT IS PROVED
-  full strength   readDir_nodup ("created directories are listed once": for every history, Commits and injected
+  full strength   pending_writes_view (a sequence of pending writes to one path, after any history: every intermediate
+                  state's view of the path is the value written last - never the remote's; the sequential backbone of
+                  the concurrent family `cache conc` of the check),
+                  readDir_nodup ("created directories are listed once": for every history, Commits and injected
                   failures included, through every handle), read_after_write ("written data is returned": whatever
                   the remote holds), view_is_subpath / view_of_view (child views, to any depth)
   DISPROVED       ryw for the code as it is: `ryw_false`; one evaluated witness per finding class KF-C07-1 … 6 in
@@ -26,6 +29,7 @@ WHAT IS PROVED
 KF-C06-4) and are covered by the correspondence only.
 -/
 import Goat.Proofs.CacheWitness
+import Goat.Proofs.CacheSeq
 
 namespace Goat.C07
 
@@ -167,6 +171,51 @@ example :
 example :
     (step .cache (step (.sub [97, 47]) (State.new (Witness.mkRemote [([97, 47, 120], some [9])] Node.empty))
         (.writeFile [46, 47, 120] [7])).1 (.readFile [47, 97, 47, 47, 120])).2 = .data [7] := by decide
+
+/-! ### 3b. A sequence of pending writes to one path -/
+
+/-- `pending_writes_view`, full strength: on ANY well-formed initial remote (whatever it holds at the path), after ANY
+earlier history `hist` (all methods, through any handles), for ANY sequence `ws` of WriteFile calls
+`(handle, spelling, data)` that all reach one path `q` (each through its own ok handle and spelling): in the
+intermediate state after the first `k+1` of them, if the `k`-th was accepted, `ReadFile` and `Reader` of the path -
+through every ok handle and spelling reaching `q` - return the `k`-th value: one of the written values, never the
+remote's content and never "absent".  (The concurrent family of the check linearises a writer goroutine into such a
+sequence: a reader overlapping the writes `lo+1 … hi` must see the view of one of the states `lo … hi`.) -/
+theorem pending_writes_view (r0 : Node) (hr : Inv r0) (hist : List (Handle × Op)) (q : List Path.Name)
+    (ws : List (Handle × Bytes × Bytes))
+    (hall : ∀ w ∈ ws, w.1.ok = true ∧ ∃ b p, handleBase w.1 = some b ∧ Path.norm w.2.1 = some p ∧ b ++ p = q)
+    (h' : Handle) (hok' : h'.ok = true) (b' : List Path.Name) (hbase' : handleBase h' = some b')
+    (raw' : Bytes) (p' : List Path.Name) (hn' : Path.norm raw' = some p') (hq : b' ++ p' = q)
+    (k : Nat) (hk : k < ws.length)
+    (hw : (step ws[k].1 (run (State.new r0) (hist ++ writeOps (ws.take k))) (.writeFile ws[k].2.1 ws[k].2.2)).2 = .ok) :
+    (step h' (run (State.new r0) (hist ++ writeOps (ws.take (k + 1)))) (.readFile raw')).2 = .data ws[k].2.2
+    ∧ (∀ sizes, (step h' (run (State.new r0) (hist ++ writeOps (ws.take (k + 1)))) (.reader raw' sizes)).2
+        = .chunks (FS.readChunks ws[k].2.2 sizes))
+    ∧ ws[k].2.2 ∈ ws.map (fun w => w.2.2) :=
+  pending_writes_seq (State.new r0) (winv_new r0 hr) hist q ws hall h' hok' b' hbase' raw' p' hn' hq k hk hw
+
+-- the remote holds d/a = "9"; an earlier Remove of d/a; then v1 = [1] through the cache as "d/a", v2 = [2] through the
+-- view d/ as "./a", v3 = [3] through the cache as "/d//a": the hypotheses hold for k = 1 …
+example :
+    (∀ w ∈ [((Handle.cache, [100, 47, 97], [1]) : Handle × Bytes × Bytes), (.sub [100, 47], [46, 47, 97], [2]),
+              (.cache, [47, 100, 47, 47, 97], [3])],
+        w.1.ok = true ∧ ∃ b p, handleBase w.1 = some b ∧ Path.norm w.2.1 = some p ∧ b ++ p = [[100], [97]])
+    ∧ (step (.sub [100, 47]) (run (State.new (Witness.mkRemote [([100, 47, 97], some [9])] Node.empty))
+          ([(Handle.cache, Op.remove [100, 47, 97])] ++ writeOps [(Handle.cache, [100, 47, 97], [1])]))
+        (.writeFile [46, 47, 97] [2])).2 = .ok := by
+  refine ⟨?_, by decide⟩
+  intro w hw
+  simp only [List.mem_cons, List.mem_nil_iff, or_false] at hw
+  rcases hw with rfl | rfl | rfl
+  · exact ⟨rfl, [], [[100], [97]], by decide, by decide, rfl⟩
+  · exact ⟨rfl, [[100]], [[97]], by decide, by decide, rfl⟩
+  · exact ⟨rfl, [], [[100], [97]], by decide, by decide, rfl⟩
+-- … and the three intermediate states read 1, 2, 3 through the view (the remote's 9 never)
+example :
+    [1, 2, 3].map (fun k => (step (.sub [100, 47]) (run (State.new (Witness.mkRemote [([100, 47, 97], some [9])] Node.empty))
+        ([(Handle.cache, Op.remove [100, 47, 97])] ++ writeOps ([((Handle.cache, [100, 47, 97], [1]) : Handle × Bytes × Bytes),
+            (.sub [100, 47], [46, 47, 97], [2]), (.cache, [47, 100, 47, 47, 97], [3])].take k))) (.readFile [97])).2)
+      = [.data [1], .data [2], .data [3]] := by decide
 
 /-! ### 4. Child views -/
 
